@@ -337,3 +337,81 @@ Proof.
     apply Z.eqb_eq in E0. apply Z.eqb_eq in E4.
     split; [exact E0|]. split; [apply xeq_xsame; exact E1|]. split; [apply xeq_xsame; exact E3 | exact E4].
 Qed.
+
+(* ====================================================================== *)
+(* op 1: n > 30                                                             *)
+(* ====================================================================== *)
+Definition c11_normal_case : Type :=
+  (Z * Z * Q * (xreal * xreal * xreal * xreal) * (Z * Z) * (xreal * xreal * xreal) * (xreal * xreal * xreal) * qobs)%type.
+Definition p_op1 : parser c11_normal_case :=
+  do n <- pZ; do qb <- pZ; do c <- pQ; do mu <- pX; do sg <- pX; do l1 <- pX; do r1 <- pX; do l0 <- pZ; do r0 <- pZ;
+  do b1 <- pX; do b2 <- pX; do pl1 <- pX; do ch <- pX; do cl <- pX; do ch1 <- pX; do o <- p_qobs;
+  pend (n, qb, c, (mu, sg, l1, r1), (l0, r0), (b1, b2, pl1), (ch, cl, ch1), o).
+
+Lemma p_op1_complete : forall rest v r, p_op1 rest = Some (v, r) -> r = [].
+Proof.
+  intros rest v r H. unfold p_op1 in H.
+  repeat (apply pbind_some in H as (? & ? & _ & H)). apply pend_some in H as (_ & _ & ->). reflexivity.
+Qed.
+
+(* The oracle values mu, sigma, l1 = InvCDF(alpha), r1, the CDF values ch = CDF(r0 - 1/2), cl = CDF(la - 1/2),
+   ch1 = CDF(r0 - 3/2), their differences b1, b2 and pl1 = CDF(l1) are what the harness read off the
+   implementation's own NormalDist (oracle instantiation: their accuracy is C05's subject).  Accepted means:
+   they are mutually consistent and describe Normal(n q, n q (1-q)); [l0 - 1/2, r0 - 1/2] is the outward
+   rounding of [l1, r1] to half-integers; l1 is the alpha-quantile to 1e-9 in probability; and the observed
+   result is the band logic on these values:  la = l0 (or r0 - 1 for an empty rounded band); the upper end is
+   one lower ("biased", Ambiguous) exactly when the shorter band is not empty, still has observed mass
+   b2 >= c and b2 < b1; Confidence is the observed mass of the band taken, 1 when it covers [0, n+1]; the
+   orders are the band clamped to [0, n+1]; and Confidence >= c. *)
+Definition normal_clauses (n : Z) (q c : Q) (mu sg l1 r1 : xreal) (l0 r0 : Z) (b1 b2 pl1 ch cl ch1 : xreal) (o : qobs) : Prop :=
+  exists mu' sg' l1' r1' b1' b2' ch' cl' ch1',
+    mu = XFin mu' /\ sg = XFin sg' /\ l1 = XFin l1' /\ r1 = XFin r1' /\ b1 = XFin b1' /\ b2 = XFin b2' /\
+    ch = XFin ch' /\ cl = XFin cl' /\ ch1 = XFin ch1' /\
+    let nq := inject_Z n * q in
+    let var := nq * (1 - q) in
+    (0 <= sg' /\ Qabs (sg' * sg' - var) <= ulps 8 var) /\
+    Qabs (mu' - nq) <= ulps 4 nq /\
+    Qabs (r1' - (2 * mu' - l1')) <= ulps 4 (Qabs mu' * 2 + Qabs l1') /\
+    Qabs (b1' - (ch' - cl')) <= ulps 2 1 /\ Qabs (b2' - (ch1' - cl')) <= ulps 2 1 /\ ch1' <= ch' /\
+    l0 = (Qfloor (l1' - (1 # 2)) + 1)%Z /\ r0 = (Qceiling (r1' - (1 # 2)) + 1)%Z /\
+    match pl1 with
+    | XFin p => Qabs (p - qci_alpha c) <= 1 # 1000000000
+    | _ => q == 0 \/ q == 1
+    end /\
+    let la := if (r0 <=? l0)%Z then (r0 - 1)%Z else l0 in
+    let biased := (la <? r0 - 1)%Z && Qle_bool c b2' && Qltb b2' b1' in
+    let r' := if biased then (r0 - 1)%Z else r0 in
+    let full := (la <=? 0)%Z && (n + 1 <=? r')%Z in
+    exists cf, o_conf o = XFin cf /\
+      o_lo o = Z.max la 0 /\ o_hi o = Z.min r' (n + 1) /\ o_amb o = biased && negb full /\
+      cf == (if full then 1 else if biased then b2' else b1') /\ c <= cf.
+
+Definition normal_ok (cs : c11_normal_case) : Prop :=
+  let '(n, qb, c, (mu, sg, l1, r1), (l0, r0), (b1, b2, pl1), (ch, cl, ch1), o) := cs in
+  exists q, decode_bits qb = XFin q /\ (30 < n)%Z /\ 0 <= q <= 1 /\
+    o_n o = n /\ o_qbits o = qb /\ (0 <= o_lo o)%Z /\ (o_lo o < o_hi o)%Z /\ (o_hi o <= n + 1)%Z /\
+    (1 <= c -> o_lo o = 0%Z /\ o_hi o = (n + 1)%Z /\ o_amb o = false /\ exists v, o_conf o = XFin v /\ v == 1) /\
+    (c < 1 -> normal_clauses n q c mu sg l1 r1 l0 r0 b1 b2 pl1 ch cl ch1 o).
+
+(* the band logic on a band function known at the two bands it is asked for *)
+Lemma qci_normal_reads : forall (bandf : Z -> Z -> Q) n c l1 r1 B1 B2,
+  let l0 := (Qfloor (l1 - (1 # 2)) + 1)%Z in
+  let r0 := (Qceiling (r1 - (1 # 2)) + 1)%Z in
+  let la := if (r0 <=? l0)%Z then (r0 - 1)%Z else l0 in
+  bandf la r0 = B1 -> bandf la (r0 - 1)%Z = B2 ->
+  let biased := (la <? r0 - 1)%Z && Qle_bool c B2 && Qltb B2 B1 in
+  let r' := if biased then (r0 - 1)%Z else r0 in
+  let full := (la <=? 0)%Z && (n + 1 <=? r')%Z in
+  qci_normal bandf n c l1 r1 =
+  mkR (Z.max la 0) (Z.min r' (n + 1)) (if full then 1 else if biased then B2 else B1) (biased && negb full).
+Proof.
+  intros bandf n c l1 r1 B1 B2 l0 r0 la E1 E2 biased r' full.
+  unfold qci_normal. fold l0 r0. fold la. rewrite E1, E2. fold biased.
+  unfold full, r'. clearbody biased. destruct biased; cbv beta iota; cbn [negb andb].
+  - destruct ((la <=? 0)%Z && (n + 1 <=? r0 - 1)%Z) eqn:F; unfold clampR; cbn [negb andb]; f_equal;
+      try (destruct (la <? 0)%Z eqn:X; [apply Z.ltb_lt in X | apply Z.ltb_ge in X]; lia);
+      try (destruct (n + 1 <? r0 - 1)%Z eqn:X; [apply Z.ltb_lt in X | apply Z.ltb_ge in X]; lia).
+  - destruct ((la <=? 0)%Z && (n + 1 <=? r0)%Z) eqn:F; unfold clampR; cbn [negb andb]; f_equal;
+      try (destruct (la <? 0)%Z eqn:X; [apply Z.ltb_lt in X | apply Z.ltb_ge in X]; lia);
+      try (destruct (n + 1 <? r0)%Z eqn:X; [apply Z.ltb_lt in X | apply Z.ltb_ge in X]; lia).
+Qed.
